@@ -23,6 +23,11 @@ PROPS = {
         "trusted_base": ["Lean Float (IEEE binary64) for float results; exact %f/%.nf formatter written on Float.toBits", "strconv.ParseFloat modelled for plain decimals only", "strings.Fields/ToUpper/ToLower modelled for ASCII (non-ASCII inputs answered 'unsupported' and not compared)", "date/stringformat/title/linebreaks/urlize*/random/phone2numeric not modelled"],
         "assumptions": ["exhaustive integer windows per filter (see rule) plus random cases, compared with the Lean model; Python-slice, padding-shape, truncatechars, get_digit, floatformat and exact-rational widthratio references run as model-free oracles"],
     },
+    "C07": {
+        "suites": [{"name": "c07-expr", "proj": ["semantics", "class", "output", "driver"]}],
+        "trusted_base": ["Lean Float for float arithmetic (kernel-opaque: float results are equal because model and reference apply the same operation)", "math.Pow compared only where exact", "the parser side of the statement (tree -> node) is tied by correspondence; parse_pp is not yet a theorem"],
+        "assumptions": ["every generated tree inside the fragment is rendered through {{ e }} and {% if e %} and compared with an independent Go evaluator written from the property's wording and with the Lean model"],
+    },
     "C16": {
         "suites": [
             {"name": "lex", "proj": ["positions", "panic"]},
